@@ -1,6 +1,6 @@
 META = dict(
-    functions=['writer.c: process_metadata_stack, label_from_string, my_strdup', 'stack.c'],
-    stubs=['d_string.c -> ds_model (C19)', 'atoi/strcmp/strlen -> byte-loop models'],
+    functions=['writer.c: process_metadata_stack, mmd_engine_export_token_tree, scratch_pad_new, scratch_pad_free, label_from_string, my_strdup', 'stack.c'],
+    stubs=['c20_wrapper: start/end/body/list exporters and the pre-passes -> marker stubs; process_metadata_stack -> its decision rule (proved in c20_decision)', 'd_string.c -> ds_model (C19)', 'atoi/strcmp/strlen -> byte-loop models'],
     assumptions=['metadata stack of <= 2 entries with keys among the 10 control keys and 4 other keys, values of 2 arbitrary bytes; all 17 extension bits; all 13 formats'],
     outside=['that the body writers do not read EXT_COMPLETE or other metadata; YAML fences; CLI -f/-s; metadata variables'],
 )
@@ -13,6 +13,12 @@ def harnesses(tier):
                functional=True,
                bounds='<= %d metadata entries x 14 keys x 2-byte values x 2^17 extension sets x 13 formats' % n,
                desc='process_metadata_stack: EXT_COMPLETE decision, frame condition, order independence')]
+    rm = ['process_definition_stack', 'process_header_stack', 'process_table_stack', 'identify_global_search_terms', 'process_metadata_stack']
+    hs.append(dict(name='c20_wrapper', src='c20/wrapper.c', defs=dict(DS_CAP=8),
+                   units=[dict(src='repo:writer.c', remove=rm), 'repo:token.c', 'repo:stack.c', 'repo:object_pool.c', 'repo:char.c', 'common/ds_model.c'],
+                   unwind=18, timeout=900, mem_gb=8, functional=True, replay=False,
+                   bounds='html / html-with-assets / latex / beamer / memoir x all 2^17 extension sets x metadata forcing complete or not',
+                   desc='mmd_engine_export_token_tree: output shape [H] B L* [F], H/F exactly when complete; body exporter sees the same extensions in both modes'))
     return hs
 
 CLAIM = dict(
